@@ -852,6 +852,9 @@ def gen_lean(facts):
     return "\n".join(out)
 
 
+_STRUCT = []          # structural observations of the probes (shared or reused MUTABLE objects without any behavioural effect)
+
+
 def probe_fresh(srvs, solo):
     """freshObjects: identity of the bptk / scenario / model objects across stop -> start, timeout -> start and stop -> restore on the
     real server, and — behaviourally — whether settings written through the stopped instance are seen by the started one."""
@@ -872,26 +875,39 @@ def probe_fresh(srvs, solo):
             do(srv, 1, ("b", ("p", 6))); do(srv, 1, ("s", ("k", 3)))
             made0 = len(srv.made)
             do(srv, 0, ("x",))                  # stop -> start
+            def left(label):
+                """what a just started / restored instance shows of settings it never received: scenario-level and model-level"""
+                sc = srv.mgr._instances[srv.uids[label]]["instance"].get_scenario(SM, SC)
+                out = {f"scenario.{k}": v for k, v in sc.constants.items() if k != "constant"}
+                out.update({f"scenario.points.{k}": v for k, v in sc.points.items()})
+                if sc.model.points["tbl2"][0][1] != 1.0: out["model.tbl2"] = sc.model.points["tbl2"][0][1]
+                if sc.model.points["tbl"][0][1] != 1.0: out["model.tbl"] = sc.model.points["tbl"][0][1]
+                if float(sc.model.equations["k2"](0.0)) != 2.0: out["model.k2"] = float(sc.model.equations["k2"](0.0))
+                return out
             do(srv, 2, ("c",))
             new = objs(2)
+            leftovers = {f"after stop->start: {k}": v for k, v in left(2).items()}
             do(srv, 1, ("t",))                  # timeout -> start
             do(srv, 3, ("c",))
             new += objs(3)
+            leftovers.update({f"after timeout->start: {k}": v for k, v in left(3).items()})
             if ad:                              # timeout -> restore of instance 1 (its next request) after the stop of instance 2
                 do(srv, 2, ("b", ("k", 9))); do(srv, 2, ("s", None)); do(srv, 2, ("x",))
                 do(srv, 1, ("k",))
                 if srv.uids[1] in srv.mgr._instances:
                     new += objs(1)[:3] + objs(1)[5:]
-            recycled = [type(o).__name__ for o in new if any(o is p for p in seen)]
+            recycled = [type(o).__name__ for o in new if any(o is p for p in seen) and not isinstance(o, (tuple, frozenset, str, bytes, int, float, bool, type(None)))]
             factory_calls = len(srv.made) - made0
-            sc2 = srv.mgr._instances[srv.uids[2]]["instance"].get_scenario(SM, SC) if srv.uids[2] in srv.mgr._instances else None
-            sc3 = srv.mgr._instances[srv.uids[3]]["instance"].get_scenario(SM, SC)
-            leftovers = {k: v for k, v in list(sc3.constants.items()) if k != "constant"}
-            tbl2 = sc3.model.points["tbl2"][0][1]
             detail[f"adapter={ad}"] = {"objects_reused": recycled, "factory_calls_for_starts_and_restores": factory_calls,
-                                      "expected_factory_calls": 3 if ad else 2, "leftover_constants": leftovers, "tbl2": tbl2}
-            if recycled or factory_calls != (3 if ad else 2) or leftovers or tbl2 != 1.0:
+                                      "expected_factory_calls": 3 if ad else 2, "leftovers": leftovers}
+            # the fact is behavioural: does anything written through the instance that went away show in the started one?
+            if leftovers:
                 ok = False
+            # object identity and the number of factory calls are structure: noted, not held against the code
+            if recycled:
+                _STRUCT.append(f"objects of a stopped / timed-out instance are handed to a started or restored one ({sorted(set(recycled))}, adapter={ad})")
+            if factory_calls != (3 if ad else 2):
+                _STRUCT.append(f"{factory_calls} factory calls for {3 if ad else 2} starts / restorations (adapter={ad})")
         finally:
             srvs.retire(srv)
     return ok, detail
@@ -927,13 +943,17 @@ def run(chk):
 def _run(chk, srvs):
     solo = Solo()
     facts, pdetail = {}, {}
+    del _STRUCT[:]
     facts["kindScn"], ddetail = {}, {}
     for st in STYLES:
         facts[st], pdetail[st] = probe_style(srvs, solo, st)
         owned, shared = probe_dicts(srvs, st)
         ddetail[st] = shared
-        facts["kindScn"][st] = not owned       # WHAT is shared: the scenario dictionaries (else: the base model's points table)
-        facts[st] = facts[st] and owned
+        # the fact is behavioural (probe_style: does a setting given through one owner change what another one answers?); the identity
+        # of the dictionaries says WHICH mechanism it is when it fails, and is only noted when nothing fails
+        facts["kindScn"][st] = (not facts[st]) and (not owned)
+        if facts[st] and not owned:
+            _STRUCT.append(f"{st} factory: two factory products share the scenario dictionaries {shared} (never written through)")
     chk.notes["shared_scenario_dictionaries"] = ddetail
     # handler-level state: did the probe histories (begin-session with settings on one instance, begin-session WITHOUT the key on
     # another) write into a class attribute of the server module?
@@ -1210,6 +1230,12 @@ def _run(chk, srvs):
     if not ok:
         chk.add_finding("obligation", f"proof obligations of C16 no longer check: {why}",
                         {"theorem": "Bptk.C16.Gen.* / Bptk.Props.C16", "detail": why}, found_input=False)
+    chk.notes["structural_observations"] = list(_STRUCT)
+    if _STRUCT and not first and not conc_first and diff is None and vdiff is None and ok:
+        chk.add_finding("structure", "structure differs from the machine's picture of the server (" + "; ".join(_STRUCT) + ") although no generated history and no probe "
+                        "shows one owner's requests in another owner's responses: `takeObj_fresh` / `Server.fac` (every started or restored instance gets a new factory "
+                        "product; products share nothing) is not what the code does structurally",
+                        {"theorem": "Bptk.C16.takeObj_fresh / step_local (lean/Bptk/Props/C16.lean)", "observations": list(_STRUCT)}, found_input=False)
     if vdiff is not None and not first and not conc_first and diff is None:
         chk.add_finding("correspondence", f"model and implementation disagree on response values for {req[vdiff[0]]!r}: {vdiff[1]}",
                         {"correspondence": "Drive/C16 values vs BptkServer bodies", "request": req[vdiff[0]], "detail": vdiff[1]}, found_input=False)
